@@ -31,18 +31,18 @@ ACTIONS = [("DoSeedCompartment", "SeedAddCompartment"), ("DoSeedFlow", "SeedAddF
 
 CONSTS = {
     "quick": [
-        dict(Pool="{1, 2, 4}", MaxComps=3, MaxFlows=3, OutKinds="{1, 2}", FlowKinds="{1}", MaxOps=2, Thin=64, FullDepth=1, SeedThin=1, SeedThinFrom=9, SampleMod=24),
+        dict(Pool="{1, 2, 4}", MaxComps=3, MaxFlows=3, OutKinds="{1, 2}", FlowKinds="{3}", MaxOps=2, Thin=96, FullDepth=1, SeedThin=1, SeedThinFrom=9, SampleMod=24),
     ],
     "thorough": [
         # all 3-compartment digraphs over a 4-name pool, three operations deep
-        dict(Pool="{1, 2, 4, 5}", MaxComps=3, MaxFlows=4, OutKinds="{1, 2}", FlowKinds="{1}", MaxOps=2, Thin=128, FullDepth=1, SeedThin=1, SeedThinFrom=9, SampleMod=64),
+        dict(Pool="{1, 2, 4, 5}", MaxComps=3, MaxFlows=4, OutKinds="{1, 2, 3}", FlowKinds="{1}", MaxOps=2, Thin=128, FullDepth=1, SeedThin=1, SeedThinFrom=9, SampleMod=64),
         # 4 compartments incl. the special names EFFECT / METABOLITE (seed flows thinned)
         dict(Pool="{1, 2, 3, 4, 5}", MaxComps=4, MaxFlows=5, OutKinds="{1, 2}", FlowKinds="{1}", MaxOps=3, Thin=512, FullDepth=0, SeedThin=6, SeedThinFrom=3, SampleMod=64),
         # nonlinear flows between compartments
-        dict(Pool="{1, 2, 5}", MaxComps=3, MaxFlows=3, OutKinds="{1}", FlowKinds="{1, 2}", MaxOps=2, Thin=64, FullDepth=1, SeedThin=1, SeedThinFrom=9, SampleMod=32),
+        dict(Pool="{1, 2, 5}", MaxComps=3, MaxFlows=3, OutKinds="{1}", FlowKinds="{1, 2, 3}", MaxOps=2, Thin=64, FullDepth=1, SeedThin=1, SeedThinFrom=9, SampleMod=32),
     ],
 }
-COV = dict(Pool="{1, 2}", MaxComps=2, MaxFlows=1, OutKinds="{1, 2}", FlowKinds="{1}", MaxOps=1, Thin=1, FullDepth=1, SeedThin=1, SeedThinFrom=9, SampleMod=1000003)
+COV = dict(Pool="{1, 2}", MaxComps=2, MaxFlows=1, OutKinds="{1, 2}", FlowKinds="{3}", MaxOps=1, Thin=1, FullDepth=1, SeedThin=1, SeedThinFrom=9, SampleMod=1000003)
 
 
 def _cfg(path, consts, seed):
@@ -114,14 +114,27 @@ class _Env:
         self.tcs = to_compartmental_system
         self.t = sympy.Symbol("t")
 
-    def amount(self, name):
-        return self.sp.Function(f"A_{name}")(self.t)
+    def amount(self, name, ren=None):
+        return self.sp.Function((ren or {}).get(f"A_{name}", f"A_{name}"))(self.t)
 
     def rate(self, src, dst, kind, ren=None):
-        S = lambda n: self.sp.Symbol((ren or {}).get(n, n))  # noqa: E731
+        """kind 1: symbol / CL/V; 2: Michaelis-Menten; 3: sum of the parts 31 + 32 (KA + KB, (Q1 + Q2)/V)"""
+        ren = ren or {}
+        S = lambda n: self.sp.Symbol(ren.get(n, n))  # noqa: E731
+        out = dst == "OUT"
         if kind == 1:
-            return S(f"CL_{src}") / S(f"V_{src}") if dst == "OUT" else S(f"K_{src}_{dst}")
-        return S(f"VM_{src}_{dst}") / (S(f"KM_{src}_{dst}") + self.amount(src))
+            if out:
+                return S(ren[f"CL_{src}/V_{src}"]) if f"CL_{src}/V_{src}" in ren else S(f"CL_{src}") / S(f"V_{src}")
+            return S(f"K_{src}_{dst}")
+        if kind == 2:
+            return S(f"VM_{src}_{dst}") / (S(f"KM_{src}_{dst}") + self.amount(src, ren))
+        if kind == 31:
+            return S(f"Q1_{src}") / S(f"V_{src}") if out else S(f"KA_{src}_{dst}")
+        if kind == 32:
+            return S(f"Q2_{src}") / S(f"V_{src}") if out else S(f"KB_{src}_{dst}")
+        if kind == 3:
+            return (S(f"Q1_{src}") + S(f"Q2_{src}")) / S(f"V_{src}") if out else S(f"KA_{src}_{dst}") + S(f"KB_{src}_{dst}")
+        raise core.MachineryError(f"rate kind {kind}")
 
     def dose(self, d):
         if d == 1:
@@ -452,15 +465,49 @@ def check_case(case, seed=0):
                         spec_predicts_order_change=any(o != case["order"] for o in case["subs_orders"]))
                 if after not in case["subs_orders"]:
                     drift.append(f"{label}: order {after} vs transcription {case['subs_orders']}")
-    rate_syms = [s for s in syms if str(s).startswith(("K_", "CL_", "VM_"))]
+    def equations_of(cs_, ren, what):
+        """names / amounts / eqs of a (substituted) system against the TLC terms rendered with the renaming"""
+        nm = list(cs_.compartment_names)
+        am = [sp.sympify(x) for x in cs_.amounts]
+        es = [sp.sympify(e) for e in cs_.eqs]
+        if sorted(nm) != sorted(case["nodes"]) or len(am) != len(nm) or len(es) != len(nm):
+            return f"{what}: names {nm}, {len(am)} amounts, {len(es)} equations"
+        for i, a in enumerate(nm):
+            if am[i] != E.amount(a, ren):
+                return f"{what}: amounts[{i}] = {am[i]}, expected {E.amount(a, ren)} for {a}"
+            e = eqd[a]
+            exp = sum((t["sign"] * E.rate(t["src"], t["dst"], t["kind"], ren) * E.amount(t["amount"], ren) for t in e["terms"]), sp.Integer(0)) + E.inp(a, e["input"])
+            if es[i].lhs != sp.Derivative(E.amount(a, ren), E.t) or not E.zero(es[i].rhs - exp, rng):
+                return f"{what}: equation {es[i]}, expected d/dt {E.amount(a, ren)} = {exp}"
+            stray = {f.func.__name__ for f in es[i].rhs.atoms(sp.core.function.AppliedUndef)} - {E.amount(b, ren).func.__name__ for b in nm}
+            if stray:
+                return f"{what}: the right hand side of {a} contains {sorted(stray)} which is not an amount of the system"
+        return None
+
+    def subs_case(label, sub, ren, kind):
+        r = guarded(label, lambda: cs.subs(sub))
+        if r is not None:
+            m = guarded(label, lambda: project(r, ren, what=label) or equations_of(r, ren, label))
+            if m:
+                bad("subs", "content_changed", m, sub=kind)
+
+    # one symbol of a rate gets a fresh name
+    rate_syms = [s for s in syms if str(s).startswith(("K_", "KA_", "KB_", "CL_", "VM_", "Q1_"))]
     if rate_syms:
         s0 = rate_syms[rng.randrange(len(rate_syms))]
-        ren = {str(s0): "Q_" + str(s0)}
-        r = guarded("subs(rename)", lambda: cs.subs({s0: E.Expr.symbol(ren[str(s0)])}))
-        if r is not None:
-            m = project(r, ren, what=f"subs({s0} -> {ren[str(s0)]})")
-            if m:
-                bad("subs", "content_changed", m, sub="rename")
+        ren = {str(s0): "Z_" + str(s0)}
+        subs_case(f"subs({s0} -> {ren[str(s0)]})", {s0: E.Expr.symbol(ren[str(s0)])}, ren, "rename")
+    # a state variable is renamed: A_c(t) -> B_c(t), preferably one that occurs in a nonlinear rate
+    nl = sorted({f["src"] for f in case["flows"] if f["kind"] == 2})
+    c0 = nl[rng.randrange(len(nl))] if nl else names[rng.randrange(n)]
+    ren = {f"A_{c0}": f"B_{c0}"}
+    subs_case(f"subs(A_{c0}(t) -> B_{c0}(t))", {E.Expr(E.amount(c0)): E.Expr(E.amount(c0, ren))}, ren, "amount_function")
+    # a compound expression is replaced: CL_c/V_c -> KEL_c (re-parametrisation)
+    lin_out = sorted(f["src"] for f in case["flows"] if f["dst"] == "OUT" and f["kind"] == 1)
+    if lin_out:
+        c1 = lin_out[rng.randrange(len(lin_out))]
+        ren = {f"CL_{c1}/V_{c1}": f"KEL_{c1}"}
+        subs_case(f"subs(CL_{c1}/V_{c1} -> KEL_{c1})", {E.Expr(E.rate(c1, "OUT", 1)): E.Expr.symbol(f"KEL_{c1}")}, ren, "compound")
     return viol, drift, nchecks
 
 
@@ -493,7 +540,7 @@ def main(tier: str, seed: int) -> int:
 
     rng = random.Random(seed)
     rng.shuffle(cases)
-    budget = {"quick": 2600, "thorough": 40000}[tier]
+    budget = {"quick": 1500, "thorough": 40000}[tier]
     work = cases[:budget]
     chunks = [(work[i : i + 10], seed) for i in range(0, len(work), 10)]
     results = [r for ch in core.pmap(_replay_chunk, chunks, procs=16, chunk=1) for r in ch]
